@@ -72,6 +72,7 @@ pub trait ProxyStakeModule:
             &lp_farm_token_payment.amount,
         );
         let staking_token_amount = self.get_lp_tokens_safe_price(lp_tokens_in_farm);
+        require!(staking_token_amount > 0, "Position value is zero");
         let staking_farm_enter_result = self.staking_farm_enter(
             original_caller.clone(),
             staking_token_amount,
